@@ -18,7 +18,7 @@ RULE = ('cases = (query from the typed SQL model whose tables all live in integr
 ASSUMPTIONS = ['sqlite3 is the reference engine; the pushed query is printed by an own fully-parenthesising printer '
                '(O-print), not by the library', 'catalog: int1 is a SQL integration (not api), default namespace mindsdb']
 FLOORS = {'quick': {'__nontrivial__': 600, 'single-fetch': 2500, 'tag:sub:from': 400, 'tag:cte': 100,
-                    'tag:alias:shadows-qualifier': 100, 'tag:col:3-part': 100, 'catalog:dicts': 600},
+                    'tag:alias:shadows-qualifier': 100, 'tag:col:3-part': 100, 'catalog:dicts': 600, 'tag:shape:scope': 150},
           'thorough': {'__nontrivial__': 6000, 'single-fetch': 25000}}
 N = {'quick': 350, 'thorough': 5000}
 PLACES = {t: 'int1' for t in model.SCHEMA}
@@ -122,6 +122,72 @@ def correlated_alias_shapes(draw):
             'data': draw(model.table_data(min_rows=1)), 'catalog': draw(st.sampled_from(sorted(CATALOGS)))}
 
 
+@st.composite
+def scope_shapes(draw):
+    """Qualified stars (int1.t1.*, alias.*), WITH clauses that are not at the top of the statement (inside a derived table,
+    a join operand, an IN sub-select) and WITH in front of a parenthesised set operation -- all inside one integration."""
+    q = draw(st.sampled_from(['int1', 'int1', 'INT1', 'Int1']))
+    kind = draw(st.sampled_from(['star-3part', 'star-3part-join', 'star-alias', 'cte-derived', 'cte-join-operand', 'cte-in-subselect',
+                                 'cte-setop-paren', 'cte-setop-paren-nested']))
+    t, u = draw(st.sampled_from([('t1', 't2'), ('t2', 't3'), ('t3', 't1'), ('t4', 't2')]))
+    tc = [c for c, ty in model.SCHEMA[t]]
+    uc = [c for c, ty in model.SCHEMA[u] if c != 'a'][0]
+    cmp_ = draw(st.sampled_from(['>', '>=', '<', '=']))
+    k = draw(st.integers(0, 2))
+    truth = None
+    types = None
+    tags = ['shape:scope', 'scope:' + kind]
+    if kind == 'star-3part':
+        sql = f'SELECT {q}.{t}.* FROM {q}.{t} WHERE ({q}.{t}.a {cmp_} {k})'
+        truth = f'SELECT {t}.* FROM {q}.{t} WHERE ({q}.{t}.a {cmp_} {k})'       # SQLite has no schema.table.*
+        types = [ty for _, ty in model.SCHEMA[t]]
+    elif kind == 'star-3part-join':
+        jk = draw(st.sampled_from(['JOIN', 'LEFT JOIN']))
+        sql = f'SELECT {q}.{t}.*, x.{uc} AS c9 FROM {q}.{t} {jk} {q}.{u} AS x ON ({q}.{t}.a = x.a)'
+        truth = f'SELECT {t}.*, x.{uc} AS c9 FROM {q}.{t} {jk} {q}.{u} AS x ON ({q}.{t}.a = x.a)'
+        types = [ty for _, ty in model.SCHEMA[t]] + ['int']
+        tags.append('join:' + jk)
+    elif kind == 'star-alias':
+        sql = f'SELECT y.*, x.{uc} AS c9 FROM {q}.{t} AS y JOIN {q}.{u} AS x ON (y.a = x.a) WHERE (y.a {cmp_} {k})'
+        types = [ty for _, ty in model.SCHEMA[t]] + ['int']
+        tags.append('join:JOIN')
+    elif kind == 'cte-derived':
+        sql = (f'SELECT s.a AS c0 FROM (WITH c AS (SELECT y.a AS a FROM {q}.{t} AS y WHERE (y.a {cmp_} {k})) '
+               f'SELECT c.a AS a FROM c) AS s')
+        types = ['int']
+        tags += ['cte', 'sub:from']
+    elif kind == 'cte-join-operand':
+        jk = draw(st.sampled_from(['JOIN', 'LEFT JOIN']))
+        sql = (f'SELECT x.{uc} AS c0, s.a AS c1 FROM {q}.{u} AS x {jk} (WITH c AS (SELECT y.a AS a FROM {q}.{t} AS y '
+               f'WHERE (y.a {cmp_} {k})) SELECT c.a AS a FROM c) AS s ON (x.a = s.a)')
+        types = ['int', 'int']
+        tags += ['cte', 'sub:from', 'join:' + jk]
+    elif kind == 'cte-in-subselect':
+        sql = (f'SELECT x.a AS c0, x.{uc} AS c1 FROM {q}.{u} AS x WHERE (x.a IN (WITH c AS (SELECT y.a AS a FROM {q}.{t} AS y '
+               f'WHERE (y.a {cmp_} {k})) SELECT c.a AS a FROM c))')
+        types = ['int', 'int']
+        tags += ['cte', 'sub:in']
+    else:
+        op = draw(st.sampled_from(['UNION', 'UNION ALL', 'INTERSECT', 'EXCEPT']))
+        body = f'SELECT c.a AS c0 FROM c {op} SELECT x.a AS c0 FROM {q}.{u} AS x'
+        cte = f'WITH c AS (SELECT y.a AS a FROM {q}.{t} AS y WHERE (y.a {cmp_} {k}))'
+        types = ['int']
+        tags += ['cte', 'setop:' + op]
+        if kind == 'cte-setop-paren':
+            sql = f'{cte} ({body})'
+            truth = f'{cte} {body}'           # SQLite has no parenthesised compound select
+        else:
+            sql = f'SELECT z.a AS c0, z.{uc} AS c1 FROM {q}.{u} AS z WHERE (z.a IN ({cte} ({body})))'
+            truth = f'SELECT z.a AS c0, z.{uc} AS c1 FROM {q}.{u} AS z WHERE (z.a IN ({cte} {body}))'
+            types = ['int', 'int']
+            tags.append('sub:in')
+    meta = {'order_cols': [], 'total_order': False, 'limit': False, 'tags': tags, 'types': types, 'tables': sorted({t, u}),
+            'places': ['int1']}
+    if truth:
+        meta['truth_sql'] = truth
+    return {'sql': sql, 'meta': meta, 'data': draw(model.table_data(min_rows=1)), 'catalog': draw(st.sampled_from(sorted(CATALOGS)))}
+
+
 def prepare(tier):
     import mindsdb_sql.planner  # noqa
 
@@ -189,7 +255,8 @@ def judge(case, col):
     if not structure_only:
         G = engine.connect(model.engine_tables(data, PLACES), attach=['int1'])
         try:
-            names_t, truth = engine.run(G, sql)
+            # SQLite has no <schema>.<table>.* : the ground truth reads <table>.* (all tables live in the one attached schema)
+            names_t, truth = engine.run(G, meta.get('truth_sql') or re.sub(r'(?i)\bint1\.(\w+)\.\*', r'\1.*', sql))
         except sqlite3.Error as e:
             col.excluded('ground truth not executable: ' + str(e)[:50])
             return []
@@ -277,6 +344,8 @@ def cases(draw):
         return draw(schema_shapes())
     if draw(st.integers(0, 11)) == 0:
         return draw(correlated_alias_shapes())
+    if draw(st.integers(0, 9)) == 0:
+        return draw(scope_shapes())
     c = draw(model.queries(CFG))
     c['data'] = draw(model.table_data())
     c['catalog'] = draw(st.sampled_from(sorted(CATALOGS)))
